@@ -1562,9 +1562,17 @@ def _normalize_view_ptr_expr(
 
         ptr_required = base_required
         ptr_cardinality = base_cardinality
-        if shape_el.where or is_polymorphic:
+        if (
+            shape_el.where
+            or shape_el.offset
+            or shape_el.limit
+            or is_polymorphic
+        ):
             # If the shape has a filter on it, we need to force a reinference
-            # of the cardinality, to produce an error if needed.
+            # of the cardinality, to produce an error if needed.  OFFSET and
+            # LIMIT can empty the element just as well (`author: {..} offset
+            # 1`, `roles limit 0`), so the pointer's own lower bound does
+            # not carry over either.
             ptr_cardinality = None
         if ptr_cardinality is None or not ptr_cardinality.is_known():
             # We do not know the parent's pointer cardinality yet.
